@@ -16,6 +16,8 @@ def build(c, ascending=None, fch1=None):
     r = c["route"]
     F, T = c["F"], c["T"]
     df, dt = fh(c["df"]), fh(c["dt"])
+    if c.get("neg_df"):
+        df = -df        # the channel width given with the filterbank sign convention (foff of a descending file): the grid is that of |df|
     if r == "sizes":
         return stg.Frame(fchans=F, tchans=T, df=df, dt=dt, fch1=f1, ascending=asc, t_start=100.0)
     if r == "units":
